@@ -4,8 +4,24 @@ package proxymux
 //
 // The real muxListener (acceptLoop, mainLoop, dispatch, sub-listeners, connWithOneByte) runs on a
 // vnet.Listener under the controlled scheduler. One execution = one operation program (chosen by
-// a cost-free choice point) whose operations each run as their own thread, so every order of
-// listener registration, close, accept and incoming connections is a schedule.
+// a cost-free choice point: every ORDERED sequence of operations); the first Listen runs inline,
+// every other operation as its own thread spawned in sequence order, so the default schedule
+// executes the sequence in order and every bounded deviation from it is explored.
+//
+// Harness notes:
+//   - false alarm corrected: a first version reported "thread-leak: base.Accept | select" because
+//     mainLoop does not watch a sub-listener registered after it took its snapshot of the close
+//     channels, so closing that sub-listener does not stop the mux until the next connection.
+//     Goroutine lifetime of the mux is not part of C18; finish() now delivers one more (EOF)
+//     connection in that state - judged by the oracle like any other - and the mux shuts down.
+//   - the engine's default bounding is delay bounding; one thread per operation under classic
+//     preemption bounding (FreeSwitch) needed >10^5 executions for ONE 4-operation program at
+//     P=0, so the order of operations is enumerated explicitly (ordered programs) instead.
+//   - the explorer stops a scenario at the first bound level with a violation; programs are
+//     therefore split into families (route / unrouted / close, and relisten with a crash-only
+//     oracle) so that each defect of the unchanged tree keeps its own signature.
+//   - upstream tests of app/internal/socks5 and app/internal/http fail on the unchanged tree
+//     offline (Python clients missing), so "upstream passes" cannot be shown for their mutants.
 
 import (
 	"bytes"
